@@ -11,6 +11,7 @@ c->s : notebooks: every base x single-side edit script X from spec/NotebookEdits
        generic JSON: exhaustive triples of short lists / strings / objects of the TLC-enumerated universe.
 """
 import itertools
+import json
 
 from . import common, mergefam, mergedrv
 from . import concretize
@@ -113,13 +114,14 @@ def triple_tasks(u, trip):
         for k, (b, l, rr) in enumerate(trip):
             opts = {"generic": True, "with_diffs": True}
             law = None
-            if l == b and rr == b:
+            jb, jl, jr = (json.dumps(x, sort_keys=True) for x in (b, l, rr))     # JSON equality: 1, 1.0 and true differ
+            if jl == jb and jr == jb:
                 law, exp = "identity", b
-            elif rr == b:
+            elif jr == jb:
                 law, exp = "onesided", l
-            elif l == b:
+            elif jl == jb:
                 law, exp = "onesided", rr
-            elif l == rr:
+            elif jl == jr:
                 law, exp = "agreement", l
             if law:
                 opts["law"] = law
